@@ -239,6 +239,7 @@ func checkC09(c *ev.Ctx) {
 		forever  bool
 		partial  bool
 		withData bool
+		stdErr   bool // the source fails with io.ErrUnexpectedEOF itself (as a cut HTTP body does)
 	}
 	var jobs []job
 	for i := range wcases {
@@ -272,7 +273,7 @@ func checkC09(c *ev.Ctx) {
 	for i := range rcases {
 		r := &rcases[i]
 		for k := 0; k <= len(r.B); k++ {
-			jobs = append(jobs, job{r: r, k: k, forever: false}, job{r: r, k: k, forever: true})
+			jobs = append(jobs, job{r: r, k: k, forever: false}, job{r: r, k: k, forever: true}, job{r: r, k: k, forever: true, stdErr: true})
 			if k > 0 && k < len(r.B) {
 				// the error arrives together with the last bytes before the fault offset and
 				// persists.  (A transient error delivered together with valid data is dropped
@@ -321,12 +322,22 @@ func checkC09(c *ev.Ctx) {
 		}
 		r := j.r
 		id := fmt.Sprintf("%s@%d:%v:%v", r.ID, j.k, j.forever, j.withData)
+		if j.stdErr {
+			id += ":unexpectedEOF"
+		}
 		noteCase(id)
 		if !want(c, id) {
 			return
 		}
 		src := mon.NewSource(r.B)
 		src.FailAt, src.Forever, src.WithData = j.k, j.forever, j.withData
+		injected := mon.ErrInjected
+		if j.stdErr {
+			// an error value the library also produces itself: it must still not become a
+			// clean end of stream
+			injected = io.ErrUnexpectedEOF
+			src.Err = injected
+		}
 		var rd io.Reader = src
 		if r.ByteSrc {
 			rd = mon.ByteSource{Source: src}
@@ -369,7 +380,7 @@ func checkC09(c *ev.Ctx) {
 		case e == nil:
 			det["what"] = fmt.Sprintf("source failed at offset %d but the %s reader reported a clean end after %d bytes", j.k, r.Format, len(out))
 			c.Violation("source-error-masked-clean-eof:"+r.Format, det)
-		case !errors.Is(e, mon.ErrInjected):
+		case !errors.Is(e, injected):
 			det["what"] = fmt.Sprintf("source failed at offset %d with the injected error; the %s reader returned %q instead (neither it nor a wrapper of it)", j.k, r.Format, e)
 			c.Violation("source-error-replaced:"+r.Format, det)
 		case len(out) > len(r.Content) || !bytes.Equal(out, r.Content[:len(out)]):
